@@ -73,6 +73,13 @@ class VirtualLoop(asyncio.SelectorEventLoop):
         if had:
             self._v_us += 1
 
+    async def shutdown_default_executor(self, timeout=None):
+        """Do not wait for idle worker threads to be joined (costs ~0.3 s of real time per case)."""
+        self._executor_shutdown_called = True
+        ex = self._default_executor
+        if ex is not None:
+            ex.shutdown(wait=False, cancel_futures=True)
+
     def run_in_executor(self, executor, func, *args):
         fut = super().run_in_executor(executor, func, *args)
         self._v_inflight += 1
